@@ -12,9 +12,9 @@ import (
 func init() { register("C01", runC01) }
 
 type c01Walk struct {
-	ds    string
-	ops   []catchOp
-	obs   []J
+	ds  string
+	ops []catchOp
+	obs []J
 }
 
 func c01RandomOp(p *prng, n int) catchOp {
